@@ -89,12 +89,87 @@ func c17Check(root ast.Node, pruneMod int) (nodes int, detail string) {
 	if cnt != stopAt+1 {
 		return len(pre), fmt.Sprintf("Preorder yielded %d nodes before the consumer stopped at %d", cnt, stopAt+1)
 	}
-	// WalkMany / PreorderMany over the root's first slice-typed field, if any
+	// ... and yields every node when the consumer does not stop
+	cnt = 0
+	for n := range ast.Preorder(root) {
+		if cnt >= len(pre) || n != pre[cnt] {
+			return len(pre), fmt.Sprintf("Preorder (full) differs at %d", cnt)
+		}
+		cnt++
+	}
+	if cnt != len(pre) {
+		return len(pre), fmt.Sprintf("Preorder yielded %d nodes, reachable are %d", cnt, len(pre))
+	}
 	return len(pre), ""
 }
 
+// c17Many: the *Many variants over several roots visit the concatenation of the per-root pre-orders; PreorderMany stops with
+// the consumer; WalkMany announces the roots through VisitMany and Index.
+func c17Many(roots []ast.Node) (nodes int, detail string) {
+	var pre []ast.Node
+	for _, r := range roots {
+		if isNilNode(r) {
+			return 0, ""
+		}
+		pre = append(pre, allNodes(r)...)
+	}
+	var ins []ast.Node
+	ast.InspectMany(roots, func(n ast.Node) bool { ins = append(ins, n); return true })
+	if len(ins) != len(pre) {
+		return len(pre), fmt.Sprintf("InspectMany visited %d nodes, reachable are %d", len(ins), len(pre))
+	}
+	for i := range pre {
+		if ins[i] != pre[i] {
+			return len(pre), fmt.Sprintf("InspectMany order differs at %d: %s vs %s", i, kindName(ins[i]), kindName(pre[i]))
+		}
+	}
+	cnt := 0
+	for n := range ast.PreorderMany(roots) {
+		if cnt >= len(pre) || n != pre[cnt] {
+			return len(pre), fmt.Sprintf("PreorderMany differs at %d", cnt)
+		}
+		cnt++
+	}
+	if cnt != len(pre) {
+		return len(pre), fmt.Sprintf("PreorderMany yielded %d nodes, reachable are %d", cnt, len(pre))
+	}
+	stopAt := len(pre) / 2
+	cnt = 0
+	for range ast.PreorderMany(roots) {
+		cnt++
+		if cnt > stopAt {
+			break
+		}
+	}
+	if cnt != stopAt+1 {
+		return len(pre), fmt.Sprintf("PreorderMany yielded %d nodes before the consumer stopped at %d", cnt, stopAt+1)
+	}
+	// WalkMany with a counting visitor that prunes nothing
+	var wk []ast.Node
+	ast.WalkMany(roots, &manyVisitor{&wk})
+	if len(wk) != len(pre) {
+		return len(pre), fmt.Sprintf("WalkMany visited %d nodes, reachable are %d", len(wk), len(pre))
+	}
+	for i := range pre {
+		if wk[i] != pre[i] {
+			return len(pre), fmt.Sprintf("WalkMany order differs at %d", i)
+		}
+	}
+	return len(pre), ""
+}
+
+type manyVisitor struct{ seen *[]ast.Node }
+
+func (v *manyVisitor) Visit(n ast.Node) ast.Visitor {
+	*v.seen = append(*v.seen, n)
+	return v
+}
+func (v *manyVisitor) VisitMany(ns []ast.Node) ast.Visitor { return v }
+func (v *manyVisitor) Field(string) ast.Visitor             { return v }
+func (v *manyVisitor) Index(int) ast.Visitor                { return v }
+
 func propC17(o *propOpts) *propResult {
-	res := newResult("inputs: as C04; for every returned tree: the event list of ast.Walk with a recording visitor (Visit/VisitMany/Field/Index, the visitor identified by its Field/Index path) under three pruning rules vs the expectation derived by reflection over exported node-typed fields in declaration order; Inspect and Preorder visit exactly the reachable nodes in pre-order; Preorder stops with the consumer; non-trivial = tree with at least 5 nodes; distinct by (entry,input)")
+	res := newResult("inputs: as C04; for every returned tree: the event list of ast.Walk with a recording visitor (Visit/VisitMany/Field/Index, the visitor identified by its Field/Index path) under three pruning rules vs the expectation derived by reflection over exported node-typed fields in declaration order; Inspect and Preorder visit exactly the reachable nodes in pre-order; Preorder stops with the consumer and yields everything otherwise; WalkMany / InspectMany / PreorderMany over the returned roots and over a two-element list visit the concatenation of the per-root pre-orders; non-trivial = tree with at least 5 nodes; distinct by (entry,input)")
 	parserInputs(o, func(e *entry, s string, origin string) {
 		r := safeParse(e, s)
 		if r.hung || r.panicked != nil {
@@ -113,6 +188,21 @@ func propC17(o *propOpts) *propResult {
 				res.eval(fmt.Sprintf("%s|%s|%d", e.name, s, pm), n >= 5, func() any { return map[string]any{"entry": e.name, "input": s, "nodes": n, "prune": pm} })
 				if d != "" {
 					res.fail("kind:"+kindName(root)+":"+fmt.Sprint(pm), s, e.name, d)
+				}
+			}
+		}
+		// the *Many variants: over the roots of this parse, and over a two-element list
+		var roots []ast.Node
+		for _, root := range r.nodes {
+			if !isNilNode(root) {
+				roots = append(roots, root)
+			}
+		}
+		if len(roots) > 0 {
+			for _, rs := range [][]ast.Node{roots, {roots[0], roots[len(roots)-1]}} {
+				var d string
+				if p := safely(func() { _, d = c17Many(rs) }); p == nil && d != "" {
+					res.fail("many:"+kindName(roots[0]), s, e.name, d)
 				}
 			}
 		}
